@@ -425,3 +425,127 @@ var c20SettleFailedOnce atomic.Bool
 func scrapeTimedOut(e string) bool {
 	return strings.Contains(e, "deadline exceeded") || strings.Contains(e, "Client.Timeout") || strings.Contains(e, "i/o timeout")
 }
+
+// ---------------------------------------------------------------------------------------------------------------
+// Lingering requests: "the responses actually sent" when a request's life (upload + proof + response) is long.
+// A handful of VALID requests are kept half-uploaded for 6..65 s (thorough: up to 5 min) while ordinary requests go
+// through, then completed. Whatever the server does with a slow client (serve it, cut it off, answer 408), the totals
+// must equal what the clients received: a response the server believes it wrote but that never left (a write
+// deadline that started when the headers arrived, say) is counted and not sent.
+
+type c20LingerCase struct {
+	Mode  string   `json:"mode"`
+	HoldS []int    `json:"holdS"`
+	Reqs  []genReq `json:"reqs"`
+}
+
+func genC20Linger(mode string) func(t *rapid.T) c20LingerCase {
+	return func(t *rapid.T) c20LingerCase {
+		c := c20LingerCase{Mode: mode}
+		base := []int{6, 12, 17, 33, 65}
+		if Thorough() {
+			base = append(base, 125, 305)
+		}
+		for _, b := range base {
+			c.HoldS = append(c.HoldS, b+rapid.IntRange(0, 3).Draw(t, "jitter"))
+		}
+		n := rapid.IntRange(2, 6).Draw(t, "nreqs")
+		for i := 0; i < n; i++ {
+			c.Reqs = append(c.Reqs, genMetricsRequest(t, mode))
+		}
+		return c
+	}
+}
+
+func runC20Linger(c c20LingerCase) Result {
+	ps, err := getSystem(c.Mode, 3, 2)
+	if err != nil {
+		return bad("server", "harness:setup", "%v", err)
+	}
+	ts, err := startServer(ps, c.Mode)
+	if err != nil {
+		return bad("server", "harness:server", "%v", err)
+	}
+	defer ts.stop()
+	tally := map[string]float64{}
+	var mu sync.Mutex
+	record := func(method string, res httpResult) {
+		if res.Err != "" {
+			return
+		}
+		mu.Lock()
+		tally[fmt.Sprintf("%s/%d", methodLabel(method), res.Status)]++
+		mu.Unlock()
+	}
+	var wg sync.WaitGroup
+	lost := make([]string, len(c.HoldS))
+	t0 := time.Now()
+	for i, h := range c.HoldS {
+		m := fixedValidParams(c.Mode, 500+i)
+		su, err := startSlowUpload(ts.ProverAddr, genReq{Method: "POST", Body: m.writeDoc(styleHexLower)})
+		if err != nil {
+			return bad(c.Mode+"/linger", "harness:slow-upload", "%v", err)
+		}
+		wg.Add(1)
+		go func(i, h int, su *slowUpload) {
+			defer wg.Done()
+			defer su.close()
+			time.Sleep(time.Duration(h)*time.Second - time.Since(t0))
+			res := su.finish(300 * time.Second)
+			record("POST", res)
+			if res.Err != "" {
+				lost[i] = res.Err
+			}
+		}(i, h, su)
+	}
+	for _, r := range c.Reqs {
+		record(r.Method, ts.doReq(r))
+	}
+	wg.Wait()
+	nLost := 0
+	for _, l := range lost {
+		if l != "" {
+			nLost++
+		}
+	}
+	deadline := time.Now().Add(90 * time.Second)
+	var last scrape
+	for {
+		last = ts.scrape(5 * time.Second)
+		if last.Err == "" && last.Status == 200 {
+			got := foldOddMethods(last.Totals)
+			same := len(got) == len(tally)
+			for k, v := range tally {
+				if got[k] != v {
+					same = false
+				}
+			}
+			if same && last.HasGauge && last.InFlight == 0 {
+				return ok(c.Mode+"/linger", true).tag(fmt.Sprintf("lingering-requests:%d", len(c.HoldS)), fmt.Sprintf("lingering-lost:%d", nLost))
+			}
+		}
+		if time.Now().After(deadline) {
+			break
+		}
+		time.Sleep(50 * time.Millisecond)
+	}
+	if last.Err != "" || last.Status != 200 {
+		return bad(c.Mode+"/linger", "harness:scrape", "scrape failed: status %d err %q", last.Status, last.Err)
+	}
+	if last.InFlight != 0 {
+		return bad(c.Mode+"/linger", "metrics:in-flight-not-zero", "all requests completed or failed at the client, gauge reads %g", last.InFlight)
+	}
+	return bad(c.Mode+"/linger", "metrics:totals-differ", "requests held half-uploaded for %v s, then completed (client-side failures: %v); responses received: %s; endpoint reports: %s", c.HoldS, lost, fmtTally(tally), fmtTally(foldOddMethods(last.Totals)))
+}
+
+func init() {
+	registerReplay("TestC20_Linger", runC20Linger)
+}
+
+func TestC20_Linger(t *testing.T) {
+	scrapeMinTimeout.Store(int64(150 * time.Second))
+	if _, err := getSystem("deletion", 3, 2); err != nil {
+		t.Fatalf("harness: %v", err)
+	}
+	RunRapid(t, Check[c20LingerCase]{Prop: "C20", Test: "TestC20_Linger", Gen: genC20Linger("deletion"), Run: runC20Linger})
+}
